@@ -24,6 +24,7 @@ pub fn run(args: &[String]) {
         Some("one") => one_cmd(args),
         Some("kernoff-corpus") => kernoff_corpus_cmd(),
         Some("xstream") => xstream_cmd(args),
+        Some("liglig") => liglig_cmd(args),
         Some("anchors") => anchors_cmd(args),
         Some("kernoff-bytes") => kernoff_bytes_cmd(args),
         Some("deep-chain") => deep_chain_cmd(args),
@@ -51,6 +52,7 @@ pub enum Profile {
     Cursive, // one cursive lookup
     Marks,   // mark-to-base / mark-to-ligature / mark-to-mark, optional GSUB ligature
     Mixed,   // anything (model correspondence only)
+    LigLig,  // a ligature built from a ligature, marks on every component (geometric predicate only)
 }
 
 fn profile_of(k: u64) -> Profile {
@@ -456,7 +458,44 @@ fn mk_lookup(r: &mut Rng, spec: &FontSpec, plain: (u64, u64), subtables: Vec<Pos
 /// whose first horizontal subtable is cross-stream (known-finding class kern_cross_stream_resets_attachments).
 pub const XSTREAM_BASE: u64 = 1_000_000;
 
+/// Font indices >= LIGLIG_BASE: two GSUB ligature lookups, the second of which ligates the first one's result with
+/// another glyph (or with itself), and mark-to-ligature anchors for every component.  Outside the Gallina model's
+/// GSUB domain (its ligature step assumes fresh ligature properties): judged by the geometric predicate only.
+pub const LIGLIG_BASE: u64 = 2_000_000;
+
+fn gen_liglig(seed: u64, index: u64) -> (FontSpec, Profile) {
+    let mut r = Rng::new(seed.wrapping_mul(0x9E37_79B9).wrapping_add(index.wrapping_mul(104729)).wrapping_add(0x116));
+    let r = &mut r;
+    let mut spec = FontSpec::basic(NG);
+    spec.hadv = (0..NG).map(|g| if g == 0 { 500 } else if MARKS.contains(&g) { 0 } else { r.range(300, 1200) as u16 }).collect();
+    let mut classes: Vec<(u16, u16)> = Vec::new();
+    for &g in BASES { classes.push((g, 1)); }
+    for &g in LIGS { classes.push((g, 2)); }
+    for &g in MARKS { classes.push((g, 3)); }
+    classes.sort();
+    spec.gdef = Some(Gdef { glyph_classes: classes, mark_attach_classes: vec![], mark_glyph_sets: vec![] });
+    // lookup 0: 1 2 -> 7; lookup 1: one of 4 7 -> 8 (base + ligature), 7 3 -> 8 (ligature + base), 7 7 -> 8 (two ligatures)
+    let l0 = Lookup::with_flags(lookup_flags::IGNORE_MARKS, vec![SubstSubtable::Ligature { coverage: Coverage::Glyphs(vec![1]), ligature_sets: vec![vec![Ligature { glyph: 7, components: vec![2] }]] }]);
+    let shape = r.below(3);
+    let (first, comps, total) = match shape { 0 => (4u16, vec![7u16], 3usize), 1 => (7, vec![3], 3), _ => (7, vec![7], 4) };
+    let l1 = Lookup::with_flags(lookup_flags::IGNORE_MARKS, vec![SubstSubtable::Ligature { coverage: Coverage::Glyphs(vec![first]), ligature_sets: vec![vec![Ligature { glyph: 8, components: comps }]] }]);
+    spec.gsub = Some(Layout::single_feature(if r.chance(1, 2) { *b"liga" } else { *b"ccmp" }, vec![l0, l1]));
+    // every component of both ligatures has its own, distinct anchor for the single mark class
+    let marks: Vec<u16> = MARKS.to_vec();
+    let arr: Vec<(u16, Anchor)> = marks.iter().map(|_| (0u16, anchor(r))).collect();
+    let comp_anchors = |r: &mut Rng, n: usize| -> Vec<Vec<Option<Anchor>>> { (0..n).map(|k| vec![Some(Anchor { x: 100 + 400 * k as i16 + r.range(0, 50) as i16, y: 600 + 10 * k as i16 })]).collect() };
+    let ligatures = vec![comp_anchors(r, 2), comp_anchors(r, total)];
+    let ml = PosSubtable::MarkLig { mark_coverage: Coverage::Glyphs(marks.clone()), lig_coverage: Coverage::Glyphs(vec![7, 8]), class_count: 1, marks: arr.clone(), ligatures };
+    let bases: Vec<u16> = BASES.to_vec();
+    let mb = PosSubtable::MarkBase { mark_coverage: Coverage::Glyphs(marks), base_coverage: Coverage::Glyphs(bases.clone()), class_count: 1, marks: arr, bases: bases.iter().map(|_| vec![Some(anchor(r))]).collect() };
+    spec.gpos = Some(assemble(vec![(*b"mark", Lookup::one(mb)), (*b"mark", Lookup::one(ml))]));
+    (spec, Profile::LigLig)
+}
+
 pub fn gen_font(seed: u64, index: u64) -> (FontSpec, Profile) {
+    if index >= LIGLIG_BASE {
+        return gen_liglig(seed, index);
+    }
     if index >= XSTREAM_BASE {
         let k = index - XSTREAM_BASE;
         let (mut spec, _) = gen_font_plain(seed, k - k % 5 + 3);
@@ -491,6 +530,7 @@ fn gen_font_plain(seed: u64, index: u64) -> (FontSpec, Profile) {
         if r.chance(1, 2) { *h } else { **r.pick(HV_TAGS) }
     };
     match profile {
+        Profile::LigLig => unreachable!("generated by gen_liglig"),
         Profile::Adjust => {
             let mut lks = Vec::new();
             let t1 = if r.chance(1, 2) { *b"dist" } else { *b"abvm" };
@@ -581,7 +621,30 @@ fn lks_have_attachment(l: &Layout<PosSubtable>) -> bool {
 // ------------------------------------------------------------------------------------------------
 // texts and requests
 
+fn gen_text_liglig(r: &mut Rng) -> Vec<u16> {
+    // component sequences x l k / l k x / l k l k with an optional mark after every letter
+    let mut t: Vec<u16> = Vec::new();
+    let words = r.range(1, 2);
+    for _ in 0..words {
+        let letters: Vec<u16> = match r.below(5) { 0 => vec![4, 1, 2], 1 => vec![1, 2, 3], 2 => vec![1, 2, 1, 2], 3 => vec![1, 2], _ => vec![4, 1, 2, 3] };
+        for l in letters {
+            t.push(l);
+            let nm = match r.below(4) { 0 | 1 => 0, 2 => 1, _ => 2 };
+            for _ in 0..nm {
+                t.push(*r.pick(MARKS));
+            }
+        }
+        if r.chance(1, 3) {
+            t.push(5);
+        }
+    }
+    t
+}
+
 fn gen_text(r: &mut Rng, profile: Profile) -> Vec<u16> {
+    if profile == Profile::LigLig {
+        return gen_text_liglig(r);
+    }
     let len = match r.below(10) {
         0 => 1,
         1 => r.range(9, 24),
@@ -773,6 +836,18 @@ fn xstream_cmd(args: &[String]) {
     let mut stats = Stats(BTreeMap::new());
     for k in 0..n {
         run_font(seed, XSTREAM_BASE + 5 * k + 3, None, &mut stats);
+    }
+    for (k, v) in &stats.0 {
+        println!("stat {} {}", k, v);
+    }
+}
+
+fn liglig_cmd(args: &[String]) {
+    let seed = arg_u64(args, "--seed", 1);
+    let n = arg_u64(args, "--n", 4);
+    let mut stats = Stats(BTreeMap::new());
+    for k in 0..n {
+        run_font(seed, LIGLIG_BASE + k, None, &mut stats);
     }
     for (k, v) in &stats.0 {
         println!("stat {} {}", k, v);
@@ -1025,69 +1100,94 @@ mod geo {
         gid: u16,
         lig: Option<usize>, // ligature instance this glyph belongs to (the ligature itself or a mark inside it)
         comp: u8,           // for marks inside a ligature: the component they follow (1-based); 0 otherwise
+        ncomp: u8,          // number of components this glyph stands for (1, or k for a ligature of k components)
     }
 
-    /// Spec-level ligature formation (one GSUB lookup with ligature subtables), processing order.
+    /// Spec-level ligature formation, processing order: every active GSUB lookup in turn (ligature subtables only).
+    /// A ligature may be built from glyphs that are ligatures already: `ncomp` is the number of components a glyph
+    /// stands for, and a mark inside the new ligature is numbered by the components in front of it.
     fn liga_oracle(spec: &FontSpec, seq: &[u16], horizontal_dir: bool, feats: &[String]) -> Vec<OG> {
-        let plain: Vec<OG> = seq.iter().map(|g| OG { gid: *g, lig: None, comp: 0 }).collect();
+        let plain: Vec<OG> = seq.iter().map(|g| OG { gid: *g, lig: None, comp: 0, ncomp: 1 }).collect();
         let Some(gsub) = &spec.gsub else { return plain };
-        let active: Vec<u16> = gsub.features.iter().filter(|f| feature_active(&f.tag, horizontal_dir, feats)).flat_map(|f| f.lookup_indices.clone()).collect();
-        if active.is_empty() {
-            return plain;
-        }
-        let lk = &gsub.lookups[active[0] as usize];
-        let ign = |g: u16| ignored(spec, lk.flags, lk.mark_filtering_set, g);
-        let mut out: Vec<OG> = Vec::new();
-        let mut p = 0usize;
+        let mut active: Vec<u16> = gsub.features.iter().filter(|f| feature_active(&f.tag, horizontal_dir, feats)).flat_map(|f| f.lookup_indices.clone()).collect();
+        active.sort();
+        active.dedup();
+        let mut cur = plain;
         let mut inst = 0usize;
-        while p < seq.len() {
-            let g = seq[p];
-            let mut done = false;
-            if !ign(g) {
-                'sub: for st in &lk.subtables {
-                    let SubstSubtable::Ligature { coverage, ligature_sets } = st else { continue };
-                    let Some(ci) = coverage.index_of(g) else { continue };
-                    let Some(set) = ligature_sets.get(ci as usize) else { continue };
-                    for lig in set {
-                        let mut q = p;
-                        let mut positions = Vec::new();
-                        let mut ok = true;
-                        for c in &lig.components {
-                            let mut n = q + 1;
-                            while n < seq.len() && ign(seq[n]) {
-                                n += 1;
+        for li in active {
+            let lk = &gsub.lookups[li as usize];
+            let ign = |g: u16| ignored(spec, lk.flags, lk.mark_filtering_set, g);
+            let mut out: Vec<OG> = Vec::new();
+            let mut p = 0usize;
+            while p < cur.len() {
+                let g = cur[p].gid;
+                let mut done = false;
+                if !ign(g) {
+                    'sub: for st in &lk.subtables {
+                        let SubstSubtable::Ligature { coverage, ligature_sets } = st else { continue };
+                        let Some(ci) = coverage.index_of(g) else { continue };
+                        let Some(set) = ligature_sets.get(ci as usize) else { continue };
+                        for lig in set {
+                            let mut q = p;
+                            let mut positions = vec![p];
+                            let mut ok = true;
+                            for c in &lig.components {
+                                let mut n = q + 1;
+                                while n < cur.len() && ign(cur[n].gid) {
+                                    n += 1;
+                                }
+                                if n >= cur.len() || cur[n].gid != *c {
+                                    ok = false;
+                                    break;
+                                }
+                                positions.push(n);
+                                q = n;
                             }
-                            if n >= seq.len() || seq[n] != *c {
-                                ok = false;
-                                break;
+                            if !ok {
+                                continue;
                             }
-                            positions.push(n);
-                            q = n;
-                        }
-                        if ok {
-                            out.push(OG { gid: lig.glyph, lig: Some(inst), comp: 0 });
-                            let mut comps = 1u8;
+                            let total: u32 = positions.iter().map(|m| cur[*m].ncomp as u32).sum();
+                            out.push(OG { gid: lig.glyph, lig: Some(inst), comp: 0, ncomp: total.min(255) as u8 });
+                            // components in front of the glyph being looked at, and the matched glyph they end with
+                            let mut so_far = cur[p].ncomp as u32;
+                            let mut last_n = cur[p].ncomp as u32;
+                            let mut last_lig = cur[p].lig;
+                            let renumber = |m: &OG, so_far: u32, last_n: u32, last_lig: Option<usize>| -> u8 {
+                                // a mark that already sat on component c of the matched ligature in front of it keeps that
+                                // place, shifted by the components before that ligature; any other mark follows the last component
+                                let c = if m.comp > 0 && m.lig.is_some() && m.lig == last_lig { (m.comp as u32).min(last_n) } else { last_n };
+                                (so_far - last_n + c).min(255) as u8
+                            };
                             for k in p + 1..=q {
                                 if positions.contains(&k) {
-                                    comps += 1;
+                                    last_n = cur[k].ncomp as u32;
+                                    last_lig = cur[k].lig;
+                                    so_far += last_n;
                                 } else {
-                                    out.push(OG { gid: seq[k], lig: Some(inst), comp: comps });
+                                    out.push(OG { gid: cur[k].gid, lig: Some(inst), comp: renumber(&cur[k], so_far, last_n, last_lig), ncomp: 1 });
                                 }
                             }
+                            // marks behind the last component that belonged to it when it was a ligature of its own
+                            let mut t = q + 1;
+                            while t < cur.len() && cur[t].comp > 0 && cur[t].lig.is_some() && cur[t].lig == last_lig {
+                                out.push(OG { gid: cur[t].gid, lig: Some(inst), comp: renumber(&cur[t], so_far, last_n, last_lig), ncomp: 1 });
+                                t += 1;
+                            }
                             inst += 1;
-                            p = q + 1;
+                            p = t;
                             done = true;
                             break 'sub;
                         }
                     }
                 }
+                if !done {
+                    out.push(cur[p].clone());
+                    p += 1;
+                }
             }
-            if !done {
-                out.push(OG { gid: g, lig: None, comp: 0 });
-                p += 1;
-            }
+            cur = out;
         }
-        out
+        cur
     }
 
     fn active_lookups<'a>(spec: &'a FontSpec, horizontal_dir: bool, feats: &[String]) -> Vec<&'a Lookup<PosSubtable>> {
@@ -1172,7 +1272,7 @@ mod geo {
             }
         }
         if !gids_match {
-            if matches!(profile, Profile::Marks | Profile::Cursive | Profile::Adjust) {
+            if matches!(profile, Profile::Marks | Profile::Cursive | Profile::Adjust | Profile::LigLig) {
                 stats.add("geo.skipped.oracle_glyphs_differ", 1);
                 println!("geo {} {} oracle SKIP glyph sequence of the spec-level ligature oracle differs from the output", index, ci);
             }
@@ -1181,7 +1281,7 @@ mod geo {
         let pen = pen_of(gs);
         let lks = active_lookups(spec, horizontal(pd), &req.features);
         match profile {
-            Profile::Marks => marks(spec, &lks, &og, gs, &pen, &pidx, index, ci, req, stats),
+            Profile::Marks | Profile::LigLig => marks(spec, &lks, &og, gs, &pen, &pidx, index, ci, req, stats),
             Profile::Cursive => cursive(spec, &lks, &og, gs, &pen, &pidx, pd, index, ci, req, stats),
             Profile::Adjust => adjust(spec, bytes, &lks, &og, gs, &pidx, pd, index, ci, req, stats),
             _ => {}
